@@ -8,7 +8,8 @@ KIT = ["vp_nondet.c", "vp_mem.c", "vp_alloc.c"]
 
 def add(name, harness, **kw):
     kw.setdefault("kit", KIT)
-    kw.setdefault("timeout", 600)
+    # generous wall limits: the machine is shared; thorough-tier queries take minutes
+    kw.setdefault("timeout", 600 if kw.get("tier", "quick") == "quick" else 2400)
     OBLIGATIONS.append(Obl(name, harness, **kw))
 
 
@@ -37,7 +38,7 @@ for l0 in range(1, 11):
     for l1 in range(1, 11):
         add("c.footer-all-values-L%d-%d" % (l0, l1), "C16/format.c", real=FMT_REAL,
             defs={"VP_MODE": 1, "VP_PART": 1, "VP_L0": l0, "VP_L1": l1}, unwind=50, unwindset=VARINT_UW,
-            tier="thorough", timeout=900, cost=200,
+            tier="thorough", timeout=1800, cost=200,
             functions=["ldb_footer_write", "ldb_footer_export", "ldb_footer_read", "ldb_footer_import"],
             desc=FOOTER_DESC + " (index handle: all values)",
             bounds="metaindex handle: every value with varint lengths (%d,%d); index handle: all 2^128 values" % (l0, l1))
@@ -250,7 +251,7 @@ for (cs, offs, kl, tier) in (((1,), (0,), 2, "quick"), ((2,), (2048,), 1, "quick
         functions=FB_FUNCS, desc=FB_DESC,
         bounds="%d blocks at offsets %s (real 2 KiB base), keys per block %s of %d symbolic bytes, symbolic probe key and probe offset < 10240" % (nb, offs, cs, kl))
 # symbolic block offsets
-for (cs, kl, tier, to) in (((1,), 1, "quick", 300), ((2,), 2, "thorough", 900), ((1, 1), 2, "thorough", 1800), ((0, 2), 2, "thorough", 1800),
+for (cs, kl, tier, to) in (((1,), 1, "quick", 600), ((2,), 2, "thorough", 900), ((1, 1), 2, "thorough", 1800), ((0, 2), 2, "thorough", 1800),
                            ((1, 1, 1), 1, "thorough", 3000)):
     nb = len(cs)
     d = {"VP_NB": nb, "VP_KL": kl, "VP_SLAB": 160}
@@ -291,7 +292,7 @@ for (n, tier, to) in ((0, "quick", 600), (1, "quick", 600), (5, "quick", 600), (
 for (n, z, tier) in ((3, 1, "quick"), (6, 4, "quick"), (5, 8, "quick"), (8, 6, "thorough"), (10, 8, "thorough"), (12, 10, "thorough"), (9, 16, "thorough")):
     add("g.snappy-decode-arbitrary-N%d-Z%d" % (n, z), "C16/snappy.c", real=["util/snappy.c"], kit=["vp_nondet.c", "vp_mem.c"],
         defs={"VP_MODE": 1, "VP_N": n, "VP_Z": z}, unwind=max(n, z) + 3, unwind_is_violation=True,
-        tier=tier, timeout=600, cost=10 * n,
+        tier=tier, timeout=600 if tier == "quick" else 2400, cost=10 * n,
         functions=["snappy_decode_size", "snappy_decode", "decode_blocks"],
         desc="snappy_decode on arbitrary bytes (preamble == output size, exact-size output object): memory safe, terminates, accepts iff the reference Snappy decoder accepts, same bytes",
         bounds="%d arbitrary input bytes declaring %d output bytes" % (n, z))
